@@ -2,7 +2,7 @@
 #   proofs: coq/Properties_C02.v over tables REGENERATED from the checked tree (tools/tr_c02_*.py)
 #   correspondence: one-instruction functions (harness/c02_insn.c) in all operand shapes over the
 #   boundary grid, run by MIR_interp and MIR_gen -O0..-O3, expected value from the extracted DocSpec.
-import os, sys, json, re
+import os, sys, json, re, shutil, atexit
 from concurrent.futures import ThreadPoolExecutor
 import vlib
 import tr_opcodes, tr_c02_interp
@@ -19,9 +19,10 @@ def regenerate(chk):
     if ops != tr_opcodes.committed():
         problems.append('opcode enumeration of mir.h differs from coq/Mir/Opcode.v')
     tr_c02_interp.main()
-    import tr_c02_gvn, tr_c02_peephole
+    import tr_c02_gvn, tr_c02_peephole, tr_c02_x86pat
     tr_c02_gvn.main()
     tr_c02_peephole.main()
+    problems += tr_c02_x86pat.main() or []
     return ops, problems
 
 
@@ -88,6 +89,7 @@ def expectations(cases, infos, oracle):
         preq.append('%s %d %s' % ('br' if pi.res == '-' else 'sem', pi.num, a.split()[1]))
     postans = {c['id']: pa for (c, _), pa in zip(post, oracle.ask(preq))}
     streq, stwhere = [], []
+    presscases = []
     for c, a in zip(cases, ans):
         info = c['info']
         w = a.split()
@@ -122,6 +124,9 @@ def expectations(cases, infos, oracle):
             else:
                 d = int(pw[1], 16)
                 mask = byname[c['post']].mask
+        if (c.get('press') and info.res == 'i' and info.args[0] == 'i' and c['x']['kind'] == 'r' and c['dst']['kind'] in 'rxy'
+                and not c.get('pre') and not c.get('post')):
+            presscases.append(c)      # register pressure: the instruction applied to x+1 .. x+n as well
         if flag is not None:
             e['ret'] = flag
             for i, b in enumerate(G.le_bytes(flag, 8)):
@@ -129,13 +134,18 @@ def expectations(cases, infos, oracle):
         if d is not None:
             c['d'] = d
             kind = info.res
-            if c['dst']['kind'] == 'm':
-                streq.append('st %s %x' % (c['dst']['ty'], d))
+            if c['dst']['kind'] in ('m', 'X'):
+                inplace = c['dst']['kind'] == 'X'        # the destination is the memory operand x itself
+                dty = c['x']['ty'] if inplace else c['dst']['ty']
+                c['dst_off'] = 128 if inplace else 192
+                if inplace:
+                    e['init'] = {128 + i: b for i, b in enumerate(G.le_bytes(c['x']['val'], 16))}
+                streq.append('st %s %x' % (dty, d))
                 stwhere.append(c)
                 if isnan(kind, d):
-                    e['nan'] = (192, kind)
-                if kind == 'i' and mask == 0xffffffff and G.TYPE_SIZE[c['dst']['ty']] == 8:
-                    e['dontcare'] |= set(range(196, 200))   # upper half of a 32-bit result is undefined
+                    e['nan'] = (c['dst_off'], kind)
+                if kind == 'i' and mask == 0xffffffff and G.TYPE_SIZE[dty] == 8:
+                    e['dontcare'] |= set(range(c['dst_off'] + 4, c['dst_off'] + 8))   # upper half of a 32-bit result is undefined
             else:
                 size = G.KIND_SIZE[kind]
                 for i, b in enumerate(G.le_bytes(d, size)):
@@ -148,10 +158,33 @@ def expectations(cases, infos, oracle):
                     e['ret'] = d
                     e['retmask'] = mask
         c['exp'] = e
+    preq = []
+    for c in presscases:
+        n = min(int(c['press']), 32)
+        kind = 'ovf' if c['op'] in G.OVF else 'sem'
+        for i in range(n):
+            preq.append('%s %d %s' % (kind, c['info'].num, ' '.join('%x' % v for v in [(c['args'][0] + i + 1) & G.M64] + c['args'][1:])))
+    pans = oracle.ask(preq)
+    k = 0
+    for c in presscases:
+        n = min(int(c['press']), 32)
+        acc = 0
+        for i in range(n):
+            w = pans[k].split()
+            k += 1
+            if w[0] == 'N':
+                acc = None
+            elif acc is not None:
+                acc = (acc * 31 + (int(w[1], 16) & c['info'].mask)) & G.M64
+        if acc is None:
+            c['exp'] = None       # one of the copies is undefined: the case is not run
+            continue
+        for i, b in enumerate(G.le_bytes(acc, 8)):
+            c['exp']['writes'][232 + i] = b
     for c, a in zip(stwhere, oracle.ask(streq)):
         hx = a.split()[1]
         for i in range(0, len(hx), 2):
-            c['exp']['writes'][192 + i // 2] = int(hx[i:i + 2], 16)
+            c['exp']['writes'][c['dst_off'] + i // 2] = int(hx[i:i + 2], 16)
     return cases
 
 
@@ -161,7 +194,8 @@ def check_obs(c, obs):
     ret, ch = obs
     if (ret ^ e['ret']) & e['retmask']:
         return 'returns %x, documented %x (mask %x)' % (ret, e['ret'], e['retmask'])
-    exp = {o: b for o, b in e['writes'].items() if b != 0xA5 and o not in e['dontcare']}
+    init = e.get('init', {})     # initial content of the written cells where it is not the 0xA5 fill
+    exp = {o: b for o, b in e['writes'].items() if b != init.get(o, 0xA5) and o not in e['dontcare']}
     got = {o: b for o, b in ch.items() if o not in e['dontcare']}
     if e['nan'] is not None:
         off, kind = e['nan']
@@ -177,8 +211,8 @@ def check_obs(c, obs):
         diff = [o for o in diff if exp.get(o) != got.get(o)]
         lo, hi = diff[0], diff[-1] + 1
         return 'block bytes [%d,%d): got %s, documented %s' % (
-            lo, hi, ''.join('%02x' % got.get(o, 0xA5) for o in range(lo, hi)),
-            ''.join('%02x' % exp.get(o, 0xA5) for o in range(lo, hi)))
+            lo, hi, ''.join('%02x' % got.get(o, init.get(o, 0xA5)) for o in range(lo, hi)),
+            ''.join('%02x' % exp.get(o, init.get(o, 0xA5)) for o in range(lo, hi)))
     return None
 
 
@@ -423,26 +457,44 @@ def report(chk, bad, limit=12):
                     'instruction %s gives an undocumented result in %s: %s  [case: %s]' % (c['op'], engs, text[:300], c['line']))
 
 
+GENLOCK = 'c02-c20-gen'   # coq/gen/*.v and the extracted drivers are specific to the tree under test (VERIF_REPO):
+                          # regeneration + proof + extraction of concurrent runs (C02 and C20) are serialised
+
+
+def private_copy(exe):
+    """a copy of a built driver that a concurrent run against another tree cannot replace"""
+    d = os.path.join(vlib.BUILD, 'run')
+    os.makedirs(d, exist_ok=True)
+    p = os.path.join(d, '%s.%d' % (os.path.basename(exe), os.getpid()))
+    shutil.copy2(exe, p)
+    atexit.register(lambda: os.path.exists(p) and os.remove(p))
+    return p
+
+
 def build(chk):
     exe = vlib.build_harness('c02_insn', ['c02_insn.c'], units=('mir', 'mir-gen'))
     model = vlib.ocaml_build('c02', 'Extract_C02', ['c02x'], 'driver_c02.ml')
-    return exe, Oracle(model)
+    return exe, Oracle(private_copy(model))
 
 
 def run(chk):
     quick = chk.tier == 'quick'
-    ops, problems = regenerate(chk)
-    r = chk.prove()
+    with vlib.Lock(GENLOCK):
+        ops, problems = regenerate(chk)
+        r = chk.prove()
+        exe, oracle = build(chk)
+        x86bad = x86_rejected_rows() if not r['ok'] else []
     for ax in sorted(set(re.findall(r'^((?:ClassicalDedekindReals|FunctionalExtensionality|Classical_Prop)\.\w+)', r['log'], re.M))):
         t = 'axiom (Print Assumptions): ' + ax     # multi-line axiom types are not caught by vlib's parser
         if t not in chk.cov['trusted_base']:
             chk.cov['trusted_base'].append(t)
-    exe, oracle = build(chk)
     infos = G.opcode_infos(oracle.ask, ops)
     chk.cov['trusted_base'] += ['translators tools/tr_c02_*.py (C subset parser + symbolic execution); unknown syntax => SUnknown row => theorem fails',
                                 'Mir/CExpr.v: C11 typing with two\'s-complement machine semantics of gcc/x86-64; C float/double = IEEE binary32/64 RNE',
                                 'extraction: ExtrOcamlBasic only; ocaml/driver_c02.ml, harness/c02_insn.c (build + print only)',
-                                'Mir/DocSpec.v is a reading of MIR.md (shift counts >= width, x/0, INT_MIN/-1, float->int out of range: undefined)']
+                                'Mir/DocSpec.v is a reading of MIR.md (shift counts >= width, x/0, INT_MIN/-1, float->int out of range: undefined)',
+                                'C02/X86Sem.v: meaning of the x86-64 instruction forms named by the elements of the replacement templates (a reading of the '
+                                'Intel SDM), and pel_match as the model of pattern_match_p; the byte encoder and register allocation are not modelled']
     lines = []
     corpus = os.path.join(vlib.VERIF, 'corpus', 'c02.txt')
     if os.path.exists(corpus):
@@ -460,8 +512,116 @@ def run(chk):
             chk.finding('tie:' + p[:40], dict(problem=p), p, no_input=True)
     if not r['ok'] and not bad:
         found = model_search(chk, exe, oracle, infos, ops)
+        if not found and x86bad:
+            found = x86_model_search(chk, exe, oracle, infos, x86bad)
         if not found:
             chk.proof_broken(r, searched='%d one-instruction cases agreed with DocSpec in all engines; table rows evaluated on the grid' % len(lines))
+
+
+def x86_rejected_rows():
+    """rows of the regenerated x86-64 pattern table that the verified recogniser (C02/X86Check.v xrow_ok, extracted) rejects:
+    [(opcode number, [pattern tokens])]; [] when that cannot be computed (e.g. the table does not even type-check)"""
+    try:
+        drv = vlib.ocaml_build('c02x86', 'Extract_C02X86', ['c02x86'], 'driver_c02x86.ml')
+        rc, out, err = vlib.sh([drv], timeout=600)
+    except Exception:
+        return []
+    rows = []
+    for l in out.split('\n'):
+        w = l.split()
+        if len(w) >= 2 and w[0] == 'bad':
+            rows.append((int(w[1]), w[2:]))
+    return rows
+
+
+def x86_operand(tok, rng, info, pos):
+    """an operand text of exactly the class of pattern element tok (mir-gen-x86_64.c notation); None: not expressible"""
+    val = rng.choice(G.grid_for('i', rng, info.name, pos)) if rng.random() < 0.6 else G.rand_val('i', rng, info.name, pos)
+    if tok == 'r' or re.match(r'^h\d+$', tok):
+        return 'r:%x' % val
+    m = re.match(r'^i([0-3])$', tok)
+    if m:
+        bits = [8, 16, 32, 64][int(m.group(1))]
+        lo = 0 if bits == 8 else bits // 2          # prefer values that do not fit the next smaller class
+        k = rng.random()
+        if k < 0.35:
+            v = rng.choice([(1 << (bits - 1)) - 1, -(1 << (bits - 1)), (1 << (bits - 1)) - 2, -(1 << (bits - 1)) + 1])
+        elif k < 0.7:
+            mag = rng.getrandbits(bits - 1) | ((1 << (lo - 1)) if lo else 0)
+            v = mag if rng.random() < 0.5 else -mag - 1
+        elif 'SH' in info.name and pos == 1:
+            v = rng.randrange(64)
+        else:
+            v = rng.choice([0, 1, -1, 2, 5, 100, -100, 127, -128])
+            if bits > 8:
+                v = rng.choice([1, -1]) * (rng.getrandbits(bits - 2) | (1 << (lo - 1)))
+        return 'i:%x' % (v & G.M64)
+    if tok == 'z':
+        return 'i:0'
+    if tok == 's':
+        return 'i:%x' % rng.choice([1, 2, 4, 8])
+    m = re.match(r'^c(\d+)$', tok)
+    if m:
+        return 'i:%x' % int(m.group(1))
+    m = re.match(r'^m([su]?)([0-3])$', tok)
+    if m:
+        size = 1 << int(m.group(2))
+        sg = m.group(1) or rng.choice('su')
+        ty = {1: 'i8', 2: 'i16', 4: 'i32', 8: 'i64'}[size] if sg == 's' else {1: 'u8', 2: 'u16', 4: 'u32', 8: 'u64'}[size]
+        return G.mem_desc(rng, ty) + ':%x' % (val & ((1 << (8 * size)) - 1))
+    return None
+
+
+def x86_model_search(chk, exe, oracle, infos, rows):
+    """the x86-64 pattern-table theorem broke: aim cases at exactly the operand classes of every rejected row (memory
+    type, immediate size, in-place destination), the shapes the generic generator reaches only by chance"""
+    rng = chk.rng('x86search')
+    bynum = {i.num: i for i in infos}
+    lines = []
+    per_row = max(40, min(240, 6000 // max(1, len(rows))))
+    for num, pat in rows:
+        info = bynum.get(num)
+        if info is None or not G.testable(info) or 'l' in (info.res + info.args) or len(pat) != 1 + len(info.args):
+            continue
+        if any(k != 'i' for k in info.args) or info.res not in 'i-':
+            continue
+        for j in range(per_row):
+            srcs = [None if t == '0' else x86_operand(t, rng, info, i) for i, t in enumerate(pat[1:])]
+            if pat[1] == '0':
+                srcs[0] = x86_operand(pat[0], rng, info, 0)
+            if any(x is None for x in srcs):
+                break
+            if info.res == '-':
+                dst = 'r'
+            elif pat[1] == '0':
+                dst = 'X' if srcs[0][0] == 'm' else 'x'
+            elif pat[0].startswith('m'):
+                dst = x86_operand(pat[0], rng, info, 0).split(':')[0]
+            else:
+                dst = 'r'
+            kinds = (info.res if info.res != '-' else '-') + info.args + ('-' if len(info.args) == 1 else '')
+            line = 'x%d %s %s %s %s %s' % (len(lines), info.name, kinds, dst, srcs[0], srcs[1] if len(srcs) > 1 else '-')
+            if info.name in G.OVF:
+                sd, ud = info.ovfdef[0] == '1', info.ovfdef[1] == '1'
+                line += ' br=' + rng.choice((['BO', 'BNO'] if sd else []) + (['UBO', 'UBNO'] if ud else []))
+            lines.append(line)
+            if info.res == 'i' and (pat[0] == 'm3' or 'm3' in pat[1:]) and j % 2 == 0:
+                # a 64-bit memory operand of a pattern is also a spilled register: the same instruction on registers, under pressure
+                y = srcs[1] if len(srcs) > 1 else '-'
+                if len(srcs) > 1 and pat[2] == 'm3':
+                    y = 'r:%x' % int(srcs[1].split(':')[1], 16)
+                xv = int(srcs[0].split(':')[1], 16) if ':' in srcs[0] else 0
+                lines.append('x%d %s %s %s r:%x %s%s press=%d pmask=%x' % (
+                    len(lines), info.name, kinds, 'x' if pat[1] == '0' else 'r', xv, y,
+                    line[line.index(' br='):] if ' br=' in line else '', rng.choice([16, 24, 30]), info.mask))
+    if not lines:
+        return False
+    chk.log('x86 pattern rows rejected by the recogniser: %d; %d aimed cases' % (len(rows), len(lines)))
+    bad = correspond(chk, exe, oracle, infos, lines)
+    if bad:
+        report(chk, bad)
+        return True
+    return False
 
 
 def model_search(chk, exe, oracle, infos, ops):
@@ -515,7 +675,8 @@ def replay(chk, path):
         print('replay file names a broken proof obligation / tie:', j.get('what'))
         return 1
     ops = tr_opcodes.opcodes()
-    exe, oracle = build(chk)
+    with vlib.Lock(GENLOCK):
+        exe, oracle = build(chk)
     infos = G.opcode_infos(oracle.ask, ops)
     bad = correspond(chk, exe, oracle, infos, [line])
     print('case:', line)
